@@ -17,9 +17,11 @@ func init() {
 		c20MapDiscipline(c)
 		c20AliasUnderLock(c)
 		c20ReloadAgreement(c)
+		c20MapRecheck(c, "C20.1f")
 		lockBalance(c, "C20.1c", "types", "utils")
 		c20NoSharing(c)
 		c20Snapshot(c, "C20.2b")
+		sliceFifoShapes(c, "C20.2c")
 		c20Bounds(c)
 		c20Emitter(c)
 		c20Ids(c, "C20.5")
@@ -1258,4 +1260,173 @@ func c20ReloadAgreement(c *core.Ctx) {
 		}
 	}
 	c.Need(R, "CAS sites on a loaded entry pointer", n, 4)
+}
+
+// c20MapRecheck — C20.1f: double-checked locking of types.Map. The optimistic
+// test made on the lock-free snapshot is stale once m.mu has been waited for:
+// another goroutine may have promoted the dirty map meanwhile (dirty == nil,
+// every key now in read.m).
+func c20MapRecheck(c *core.Ctx, R string) {
+	c.Rule(R, "double-checked locking of types.Map: in every method that takes m.mu after an optimistic look at the read-only snapshot, the snapshot is re-loaded under the lock (read = m.loadReadOnly()) before dirty / misses / read.Store / a *Locked helper is touched; every lookup or delete in m.dirty is made only when the key was not found in the RE-LOADED read.m; and a miss is recorded (missLocked) or the dirty map promoted only on the edge where the re-loaded snapshot is amended or the key was found in dirty — a decision taken on the stale snapshot loses entries (an un-amended snapshot means dirty is nil: promoting it publishes an empty map) or misses a key that has just been promoted")
+	n := 0
+	for _, m := range methodsOf(c, "types", "Map") {
+		if strings.HasSuffix(m.Decl.Name.Name, "Locked") {
+			continue
+		}
+		info := m.Info()
+		g := m.Graph()
+		var locks []*core.Call
+		for _, cl := range m.Calls() {
+			if cl.Name == "Lock" && cl.Recv != nil && fieldOf(info, cl.Recv) == "Map.mu" {
+				locks = append(locks, cl)
+			}
+		}
+		if len(locks) == 0 {
+			continue
+		}
+		c.Touch(m)
+		isReload := func(e ast.Expr) bool {
+			ce, ok := ast.Unparen(e).(*ast.CallExpr)
+			return ok && strings.HasSuffix(m.CalleeKey(ce), ".loadReadOnly")
+		}
+		var reloads []Assign
+		for _, a := range assignsIn(m, func(l ast.Expr) bool { _, ok := ast.Unparen(l).(*ast.Ident); return ok }) {
+			if a.Rhs != nil && isReload(a.Rhs) {
+				reloads = append(reloads, a)
+			}
+		}
+		for _, L := range locks {
+			var R0 *Assign
+			for i := range reloads {
+				if g.Dominates(L.Loc, reloads[i].Loc) && reloads[i].Stmt.Pos() > L.Pos() {
+					R0 = &reloads[i]
+					break
+				}
+			}
+			n++
+			if !c.Check(R, m.Key+"/reload-under-lock", L.Pos(), R0 != nil, "read = m.loadReadOnly() is executed after m.mu.Lock()") {
+				continue
+			}
+			after := func(l core.Loc, pos token.Pos) bool { return pos > L.Pos() && g.Dominates(L.Loc, l) }
+			// the guards
+			reloadedRead := func(x ast.Expr) bool { // x is the local `read` whose reaching definition is the reload
+				id, ok := ast.Unparen(x).(*ast.Ident)
+				if !ok {
+					return false
+				}
+				d, ok := m.SingleDef(id)
+				return ok && ast.Unparen(d) == ast.Unparen(R0.Rhs)
+			}
+			amended := func(u *core.Unit, br core.Branch) int {
+				if br.IsCase {
+					return 0
+				}
+				se, ok := ast.Unparen(br.Cond).(*ast.SelectorExpr)
+				if !ok || se.Sel.Name != "amended" || !reloadedRead(se.X) {
+					return 0
+				}
+				return 1
+			}
+			lookupIn := func(x ast.Expr, where string) bool { // x is an `ok` defined by a two-value lookup in read.m (after the reload) / m.dirty
+				d, ok := m.SingleDef(x)
+				if !ok {
+					return false
+				}
+				te, ok := d.(*core.TupleElem)
+				if !ok || te.Index != 1 {
+					return false
+				}
+				ix, ok := ast.Unparen(te.X).(*ast.IndexExpr)
+				if !ok {
+					return false
+				}
+				switch where {
+				case "read":
+					se, ok := ast.Unparen(ix.X).(*ast.SelectorExpr)
+					if !ok || se.Sel.Name != "m" || !reloadedRead(se.X) {
+						return false
+					}
+					return true
+				case "dirty":
+					return fieldOf(info, ix.X) == "Map.dirty"
+				}
+				return false
+			}
+			foundIn := func(where string, want bool) core.Guard {
+				return func(u *core.Unit, br core.Branch) int {
+					if br.IsCase {
+						return 0
+					}
+					if _, ok := ast.Unparen(br.Cond).(*ast.Ident); !ok || !lookupIn(br.Cond, where) {
+						return 0
+					}
+					if want {
+						return 1
+					}
+					return -1
+				}
+			}
+			keyed := m.Decl.Type.Params != nil && len(m.Decl.Type.Params.List) > 0 && len(m.Decl.Type.Params.List[0].Names) > 0 && m.Decl.Type.Params.List[0].Names[0].Name == "key"
+			for _, fa := range accessesOf(m, "Map.dirty") {
+				if !after(fa.Loc, fa.Sel.Pos()) {
+					continue
+				}
+				n++
+				c.Check(R, keyf("%s/dirty-after-reload", m.Key), fa.Sel.Pos(), g.Dominates(R0.Loc, fa.Loc), "m.dirty is looked at only after the snapshot was re-loaded under the lock")
+			}
+			// keyed lookups / deletes in dirty
+			ast.Inspect(m.Body, func(nd ast.Node) bool {
+				switch x := nd.(type) {
+				case *ast.FuncLit:
+					return false
+				case *ast.IndexExpr:
+					if fieldOf(info, x.X) != "Map.dirty" || !keyed {
+						return true
+					}
+					loc := g.LocOf(x)
+					if !after(loc, x.Pos()) {
+						return true
+					}
+					// a store m.dirty[key] = e is licensed by unexpunge / dirtyLocked, not by the lookup
+					isStore := false
+					for _, a := range assignsIn(m, func(l ast.Expr) bool { return ast.Unparen(l) == ast.Expr(x) }) {
+						_ = a
+						isStore = true
+					}
+					if isStore {
+						return true
+					}
+					n++
+					c.Check(R, keyf("%s/dirty[key]-only-when-absent-from-reloaded-read", m.Key), x.Pos(), g.GuardedBy(loc, foundIn("read", false)), "the dirty map is consulted for a key only when the re-loaded read-only map does not hold it")
+				case *ast.CallExpr:
+					if id, ok := x.Fun.(*ast.Ident); ok && id.Name == "delete" && len(x.Args) == 2 && fieldOf(info, x.Args[0]) == "Map.dirty" {
+						loc := g.LocOf(x)
+						if after(loc, x.Pos()) {
+							n++
+							c.Check(R, keyf("%s/delete(dirty,key)-only-when-absent-from-reloaded-read", m.Key), x.Pos(), g.GuardedBy(loc, foundIn("read", false)) && g.GuardedBy(loc, amended), "a key is deleted from dirty only when the re-loaded snapshot does not hold it and is amended")
+						}
+					}
+				}
+				return true
+			})
+			// misses and promotion
+			for _, cl := range m.Calls() {
+				if !after(cl.Loc, cl.Pos()) {
+					continue
+				}
+				if strings.HasSuffix(cl.Key, ".missLocked") {
+					n++
+					ok := g.GuardedBy(cl.Loc, amended) || g.GuardedBy(cl.Loc, foundIn("dirty", true))
+					c.Check(R, keyf("%s/missLocked-only-when-amended-or-found-in-dirty", m.Key), cl.Pos(), ok, "a miss may promote the dirty map: it is recorded only when the re-loaded snapshot is amended (dirty non-nil) or the key was found in dirty")
+				}
+			}
+			for _, a := range fieldAssigns(m, "Map.dirty") {
+				if a.Rhs != nil && core.IsNil(info, a.Rhs) && after(a.Loc, a.Stmt.Pos()) {
+					n++
+					c.Check(R, keyf("%s/promote-only-when-reloaded-amended", m.Key), a.Stmt.Pos(), g.GuardedBy(a.Loc, amended), "the dirty map is promoted (m.dirty = nil after read.Store) only when the re-loaded snapshot is still amended")
+				}
+			}
+		}
+	}
+	c.Need(R, "double-checked locking obligations in types.Map", n, 25)
 }
